@@ -56,6 +56,15 @@ def layout_cases():
                   "expect": {"fail": False, "paths": ["deep/er/out/a/b/x/x.go", "deep/er/out/common/y/y.go"]}})
     cases.append({"id": "layout-outdir-inside-idl", "mode": "cli", "plugins": [], "thrift": thrift, "root": "idl/a/b/x.thrift", "outdir": "idl/gen",
                   "expect": {"fail": False, "paths": ["idl/gen/a/b/x/x.go", "idl/gen/common/y/y.go"]}})
+    # --output-file with every way of naming a place: the single file stays inside the output directory (the generator
+    # cleans the path as if the output directory were the root)
+    import posixpath
+    for k, of in enumerate(["single.go", "sub/single.go", "./single.go", "../single.go", "../../../single.go", "../../../../single.go",
+                            "../../../../../../../single.go", "x/../../../../../single.go", "/abs/single.go", "a//b.go"]):
+        for outdir in ("out", "deep/er/out"):
+            want = outdir + "/" + posixpath.normpath("/a/b/x/" + of).lstrip("/")
+            cases.append({"id": "output-file-%d-%s" % (k, outdir.replace("/", "_")), "mode": "cli", "plugins": [], "thrift": thrift, "root": "idl/a/b/x.thrift",
+                          "outdir": outdir, "args": ["--output-file", of], "expect": {"fail": False, "paths": [want]}})
     cases.append({"id": "compile-error", "mode": "cli", "plugins": [], "thrift": {"idl/x.thrift": "struct X { 1: optional Nope n }\n"},
                   "root": "idl/x.thrift", "expect": {"fail": True, "paths": []}})
     return cases
